@@ -160,6 +160,16 @@ pub mod verif_hooks {
         }
     }
 
+    /// The order in which the DIE cursor of the DWARF emitter visits the entries of a unit.
+    pub fn die_cursor_order(unit: &mut gimli::write::Unit) -> Vec<gimli::write::UnitEntryId> {
+        let mut cursor = super::units::DebuggingInformationCursor::new(unit);
+        let mut order = Vec::new();
+        while let Some(entry) = cursor.next_dfs() {
+            order.push(entry.id());
+        }
+        order
+    }
+
     /// The composition used by the DWARF emitter: classify, then convert.
     pub fn convert_address(
         funcs: &ModuleFunctions,
